@@ -234,7 +234,7 @@ def short_texts(ctx, case):
         short_texts._w = ctl.make_world(None, 1, show_stub=False)
         ctl.add_message(short_texts._w, 0)
     w = short_texts._w
-    for cmd in ('', 'list ', 'filter ', 'breakpoint ', 'matcher ', 'connection ', 'help ', 'l', 'zz '):
+    for cmd in ('', 'list ', 'filter ', 'breakpoint ', 'matcher ', 'connection ', 'help ', 'l', 'zz ', 'wl ', 'w ', 'wl', 'wlhelp ', 'wl w '):
         n0, e0 = len(w.out.items), len(w.err.items)
         w.ctl.process_command(cmd + text)
         ctx.check('command `%s<text>` produces output or an error line' % cmd, len(w.out.items) + len(w.err.items) > n0 + e0 or (cmd + text).strip() in ('resume', 'quit', 'r', 'q') or
